@@ -161,17 +161,32 @@ fn stress<W: Write>(n: usize, m: usize, locked: bool, out: &mut W) {
     }
     let expected: i64 = (0..n).map(|i| (0..m).map(|k| (i * 1000 + k) as i64).sum::<i64>()).sum();
     let c = counts.lock().unwrap().clone();
+    // tear everything down on the main thread: the accounting must come back to zero
+    let leftover = catch_unwind(AssertUnwindSafe(|| {
+        for l in &listeners {
+            l.unlisten();
+        }
+        drop(listeners);
+        drop(sinks);
+        ctx.transaction(|| {});
+        ctx.impl_.collect_cycles();
+        ctx.impl_.node_count()
+    }));
+    let (nodes, p2) = match leftover {
+        Ok(k) => (k as i64, 0),
+        Err(_) => (-1, 1),
+    };
     writeln!(
         out,
-        "sent={} delivered={:?} total={} expected={} panics={}",
+        "sent={} delivered={:?} total={} expected={} panics={} nodes={}",
         n * m,
         c,
         *sum.lock().unwrap(),
         expected,
-        *panics.lock().unwrap()
+        *panics.lock().unwrap() + p2,
+        nodes
     )
     .unwrap();
-    drop(listeners);
 }
 
 pub fn run_script<W: Write>(script: &Script, out: &mut W) {
